@@ -481,6 +481,29 @@ func (g *Graph) factsLattice() Lattice[Facts] {
 				}
 				n := s.clone()
 				n.assume(st.Node.(ast.Expr), st.Val)
+				g.P.applyCondPost(info, &n, st.Node.(ast.Expr), st.Val)
+				// a boolean local that names a condition (ok := a && b; if !ok {...}): the named condition is decided too
+				if g.Fi != nil {
+					ce, val := ast.Unparen(st.Node.(ast.Expr)), st.Val
+					for {
+						if u, isU := ce.(*ast.UnaryExpr); isU && u.Op == token.NOT {
+							ce, val = ast.Unparen(u.X), !val
+							continue
+						}
+						break
+					}
+					if id, isId := ce.(*ast.Ident); isId {
+						if obj, isVar := info.Uses[id].(*types.Var); isVar && !obj.IsField() && obj.Parent() != nil && obj.Parent() != g.Fi.Pkg.Types.Scope() {
+							if b, isB := obj.Type().Underlying().(*types.Basic); isB && b.Kind() == types.Bool && singleAssigned(info, g.Fi.Decl.Body, obj) {
+								if d := localDef(info, g.Fi, id); d != nil {
+									if _, isCall := ast.Unparen(d).(*ast.CallExpr); !isCall {
+										n.assume(d, val)
+									}
+								}
+							}
+						}
+					}
+				}
 				// `_, ok := m[k]` ... `if ok` / `if !ok`: also record the membership atom "m[k]"
 				{
 					ce, val := ast.Unparen(st.Node.(ast.Expr)), st.Val
